@@ -583,6 +583,64 @@ def parse_dn_export_arms(src):
     return {"export": arms, "usizeCasts": sorted(casts)}
 
 
+def parse_conversion_arms(src):
+    """the conversions the common view goes through (data_number.rs): `impl_try_from!( u8 => U8, … )` (macro body checked
+    verbatim), `TryFrom<&FieldValue> for String`, `TryFrom<&FieldValue> for IpAddr`"""
+    m = re.search(r"macro_rules!\s*impl_try_from\s*\{", src)
+    if not m:
+        raise Unrecognised("impl_try_from! macro")
+    body = _squash(block_after(src, m.start())[0])
+    want = ("($($t:ty=>$v:ident),*;$($s:ty=>$sv:ident),*)=>{$(implTryFrom<&DataNumber>for$t{typeError=DataNumberError;fntry_from(val:&DataNumber)->Result<Self,Self::Error>"
+            "{matchval{DataNumber::$v(i)=>Ok(*i),_=>Err(DataNumberError::InvalidDataType),}}}implTryFrom<&FieldValue>for$t{typeError=FieldValueError;"
+            "fntry_from(value:&FieldValue)->Result<Self,Self::Error>{matchvalue{FieldValue::DataNumber(d)=>{letd:$t=d.try_into().map_err(|_|FieldValueError::InvalidDataType)?;Ok(d)}"
+            "_=>Err(FieldValueError::InvalidDataType),}}})*};")
+    if body != want:
+        raise Unrecognised("impl_try_from! body changed")
+    m = re.search(r"impl_try_from!\s*\(", src[m.end():])
+    if not m:
+        raise Unrecognised("impl_try_from! invocation")
+    inv = re.search(r"impl_try_from!\s*\(([^;]*);\s*\)\s*;", src)
+    if not inv:
+        raise Unrecognised("impl_try_from! invocation shape")
+    nums = []
+    for item in inv.group(1).split(","):
+        item = item.strip()
+        if not item:
+            continue
+        mm = re.fullmatch(r"([iu]\d+)\s*=>\s*([IU]\d+)", item)
+        if not mm:
+            raise Unrecognised("impl_try_from! item %r" % item)
+        nums.append((mm.group(1), mm.group(2).lower()))
+    def arms_of(target):
+        b = find_impl(src, r"impl\s+TryFrom<&FieldValue>\s+for\s+%s\s*\{" % target)
+        return [(l, _squash(r)) for l, r in match_arms(b, r"value")]
+    st = arms_of("String")
+    if st != [("FieldValue::String(s)", "Ok(s.clone())"), ("FieldValue::MacAddr(s)", "Ok(s.to_string())"), ("_", "Err(FieldValueError::InvalidDataType)")]:
+        raise Unrecognised("TryFrom<&FieldValue> for String: %r" % st)
+    ip = arms_of("IpAddr")
+    if ip != [("FieldValue::Ip4Addr(ip)", "Ok(IpAddr::V4(*ip))"), ("FieldValue::Ip6Addr(ip)", "Ok(IpAddr::V6(*ip))"), ("_", "Err(FieldValueError::InvalidDataType)")]:
+        raise Unrecognised("TryFrom<&FieldValue> for IpAddr: %r" % ip)
+    return {"nums": nums, "string": ["str", "mac"], "ip": ["ip4", "ip6"]}
+
+
+def parse_common_flow_types(common):
+    """pub struct NetflowCommonFlowSet { pub x: Option<T>, … } -> [(x, T)] : the target type selects the conversion"""
+    m = re.search(r"pub\s+struct\s+NetflowCommonFlowSet\s*\{", common)
+    if not m:
+        raise Unrecognised("NetflowCommonFlowSet")
+    body, _ = block_after(common, m.start())
+    out = []
+    for item in body.split(","):
+        item = re.sub(r"#\[[^\]]*\]", "", item).strip()
+        if not item:
+            continue
+        mm = re.fullmatch(r"pub\s+([a-z_0-9]+)\s*:\s*Option<([A-Za-z0-9]+)>", item)
+        if not mm:
+            raise Unrecognised("NetflowCommonFlowSet field %r" % item)
+        out.append((mm.group(1), mm.group(2)))
+    return out
+
+
 def scan_globals():
     bad = []
     for root, _, files in os.walk(SRC):
@@ -715,6 +773,7 @@ def gen():
     attempt("valueArms", lambda: parse_value_arms(dn))
     attempt("exportArms", lambda: parse_export_arms(dn))
     attempt("dnExport", lambda: parse_dn_export_arms(dn))
+    attempt("convArms", lambda: parse_conversion_arms(dn))
 
     for key, src, name, nth in [
         ("v5Hdr", v5, "Header", 0), ("v5Rec", v5, "FlowSet", 0), ("v7Hdr", v7, "Header", 0), ("v7Rec", v7, "FlowSet", 0),
@@ -757,6 +816,7 @@ def gen():
     attempt("dispatch", f_dispatch)
     attempt("globals", lambda: scan_globals())
     common = strip_comments(read("netflow_common.rs"))
+    attempt("commonFlowTypes", lambda: parse_common_flow_types(common))
     attempt("commonV9", lambda: parse_common_keys(common, "V9", "V9Field", out["v9field"]["enum"]))
     attempt("commonIp", lambda: parse_common_keys(common, "IPFix", "IPFixField", out["ipfield"]["enum"]))
     return out, problems
@@ -844,6 +904,13 @@ def emit(out):
     A("def dnExportArms : DnExportArms := %s" % lean_list("(.%s, %s)" % (t, a) for t, a in out["dnExport"]["export"]))
     A("/-- variants whose `From<DataNumber> for usize` arm is the plain cast `i as usize` (all of them) -/")
     A("def dnUsizeCasts : List DnArm := %s" % lean_list(".%s" % v for v in out["dnExport"]["usizeCasts"]))
+    A("/-- `impl_try_from!(…)`: the integer type a common-view conversion asks for -> the only `DataNumber` variant it accepts -/")
+    A("def convNumArms : List (String × DnArm) := %s" % lean_list('("%s", .%s)' % (t, v) for t, v in out["convArms"]["nums"]))
+    A("/-- value kinds accepted by `TryFrom<&FieldValue> for String` / `for IpAddr` -/")
+    A("def convStringTags : List VTag := %s" % lean_list(".%s" % v for v in out["convArms"]["string"]))
+    A("def convIpTags : List VTag := %s" % lean_list(".%s" % v for v in out["convArms"]["ip"]))
+    A("/-- fields of `NetflowCommonFlowSet` with the type inside their `Option` (it selects the `TryFrom` impl) -/")
+    A("def commonFlowTypes : List (String × String) := %s" % lean_list('("%s", "%s")' % (a, b) for a, b in out["commonFlowTypes"]))
     A("")
     A("def lookupD {β : Type} (tbl : List (Nat × β)) (d : β) (n : Nat) : β := (tbl.lookup n).getD d")
     A("")
